@@ -9,12 +9,14 @@
    near misses, random strings, numeric and collection inputs; runs the real rule (valid.Var) on everything of 2 and 3
    and records (rule, arg, kind, input, violated) plus the delegated platform predicate (json / regexp / file system).
 4. Judge_Formats (TLC, constant mode, sharded over <= 4 processes) judges every record against Formats!Verdicts.
+5. TimeFmt (the layout builder GetTimeFmt behind year / year2month / date / datetime): TLC checks its fold against the
+   contract on every int8 mask x every separator tuple and prints the expected layout; each is compared with the real one.
 """
 import json
 import os
 from concurrent.futures import ThreadPoolExecutor
 
-from . import common, fam_formats as ff
+from . import common, fam_aux, fam_formats as ff
 from .common import MachineryError
 
 ASSUMPTIONS = [
@@ -124,6 +126,10 @@ def run_checked(ctx):
         if st["satisfied"] + st["broken"] < 3 or st["violated"] + st["broken"] < 3:
             raise MachineryError("vacuous: rule %s has %d satisfied / %d violated decided records" % (rule, st["satisfied"], st["violated"]))
 
+    # 5. the layout builder behind the date rules (spec/TimeFmt.tla): mechanism => contract on every mask x separators,
+    #    every vector replayed on the real GetTimeFmt (differences are DRIFT notes; the rules' verdicts are judged above)
+    tf = fam_aux.timefmt(ctx, vh, quick)
+
     mcres = mcfut.result()
     pool.shutdown()
     samples = [t.samples[k] for k in sorted(t.samples)]
@@ -147,6 +153,7 @@ def run_checked(ctx):
         states=ctx.states, transitions=ctx.transitions,
         judge_processes=len(files),
     )
+    cov.update(tf)
     return ctx.finish("exploration", cov, ASSUMPTIONS)
 
 
